@@ -320,3 +320,23 @@ Proof.
   destruct (prefix_claim m vs Hnorm (nodes m) Hok Hd Hlit (N.to_nat id) Hv) as (_ & _ & H).
   exact (H s0).
 Qed.
+
+(* ---- gradient (Independent variables) -------------------------------------------------------------- *)
+Lemma MInv_set_weights : forall v p n m, MInv m -> MInv (set_weights v p n m).
+Proof.
+  intros v p n m Hi sigma. specialize (Hi sigma). constructor; cbn; apply Hi.
+Qed.
+
+Lemma grad_indep : forall m vs id v sigma0,
+  MInv m -> decomp_ok m = true -> lits_in vs m = true -> validh m id ->
+  kind_of m v = Indep ->
+  normalised vs (set_weights v 1 0 m) = true -> normalised vs (set_weights v 0 1 m) = true ->
+  grad_var m id v ==
+    wsum (pos_of (set_weights v 1 0 m)) (neg_of (set_weights v 1 0 m)) vs (fun s => b2q (den m id s)) sigma0
+  - wsum (pos_of (set_weights v 0 1 m)) (neg_of (set_weights v 0 1 m)) vs (fun s => b2q (den m id s)) sigma0.
+Proof.
+  intros m vs id v s0 Hi Hd Hl Hv Hk N1 N0. unfold grad_var. rewrite Hk.
+  rewrite (wmc_sum (set_weights v 1 0 m) vs id s0); try assumption; try (apply MInv_set_weights; assumption).
+  rewrite (wmc_sum (set_weights v 0 1 m) vs id s0); try assumption; try (apply MInv_set_weights; assumption).
+  reflexivity.
+Qed.
